@@ -27,7 +27,7 @@ static uint32_t q_val[QMAX], q_lvl[QMAX]; static uint8_t q_emp[QMAX], q_exit[QMA
 /* bookkeeping */
 static uint32_t n_sub;                    /* lines submitted so far (ids 1..NLINES in submission order) */
 static uint8_t sub_enabled[NLINES + 1], sub_ret[NLINES + 1], sub_queued[NLINES + 1], sub_before_stop[NLINES + 1];
-static uint32_t n_proc; static uint32_t proc_id[QMAX + 1]; static uint8_t proc_empty_seen;
+static uint32_t n_proc; static uint32_t proc_id[QMAX + 1]; static uint8_t proc_empty_seen, text_changed; uint8_t cx_text_changed;
 static uint8_t stop_phase;                /* 0 not requested, 1 requested (marker pending), 2 complete */
 static uint32_t cur_sub;                  /* id of the line being submitted right now (0 = the stop marker) */
 static uint8_t running;                   /* the logger thread is inside operator() */
@@ -37,7 +37,12 @@ uint8_t st_q_try_push(void *q, LE *src)
 {
   __CPROVER_assert(q_tail < QMAX, "abstract FIFO large enough");
   q_val[q_tail] = vf_le_val(src); q_lvl[q_tail] = vf_le_level(src); q_emp[q_tail] = vf_le_empty(src) & 1; q_exit[q_tail] = vf_le_exit(src) & 1; q_tail++;
-  if (cur_sub) sub_queued[cur_sub] = 1;
+  if (cur_sub) {
+    sub_queued[cur_sub] = 1;
+    /* the element queued for the writer carries the submitted text (the FIFO and the writer hand it on unchanged) */
+    uint32_t ql = vf_le_len(src);
+    if (ql != cx_tlen[cur_sub] || (ql >= 1 && vf_le_byte(src, 0) != cx_t0[cur_sub]) || (ql >= 2 && vf_le_byte(src, 1) != cx_t1[cur_sub])) text_changed = 1;
+  }
   return 1;                               /* uMPMC_Ptr_Queue::push always returns true (C30) */
 }
 static void sched(int must);
@@ -126,6 +131,8 @@ int main(void)
     }
   }
   for (uint32_t j = 0; j < QMAX; j++) if (j < n_proc) VF_ASSERT(proc_id[j] >= 1 && proc_id[j] <= n_sub && sub_enabled[proc_id[j]] && (j == 0 || proc_id[j] > proc_id[j - 1]), "C28: only accepted lines are written, none twice, in order");
+  cx_text_changed = text_changed;
+  VF_ASSERT(!text_changed, "C28: the line handed to the writer is the submitted line (text unchanged)");
   VF_ASSERT(!proc_empty_seen, "C28: the stop marker is never written as a line");
   VF_REACH();
   return 0;
